@@ -32,6 +32,24 @@ func newRealOrigin() (*realOrigin, error) {
 			w.WriteHeader(599)
 			return
 		}
+		if t.B.Cut != "" { // the body ends before its declared end, then the connection goes away
+			conn, buf, err := w.(http.Hijacker).Hijack()
+			if err != nil {
+				return
+			}
+			defer conn.Close()
+			ct := ""
+			if t.B.CT != "" {
+				ct = "Content-Type: " + t.B.CT + "\r\n"
+			}
+			if t.B.Cut == "length" {
+				fmt.Fprintf(buf, "HTTP/1.1 %d X\r\n%sContent-Length: %d\r\n\r\n%s", t.Status, ct, len(t.B.Body)+50, t.B.Body)
+			} else {
+				fmt.Fprintf(buf, "HTTP/1.1 %d X\r\n%sTransfer-Encoding: chunked\r\n\r\n%x\r\n%s\r\n", t.Status, ct, len(t.B.Body), t.B.Body)
+			}
+			buf.Flush()
+			return
+		}
 		if t.B.CT != "" {
 			w.Header().Set("Content-Type", t.B.CT)
 		} else {
